@@ -8,7 +8,7 @@ from lib import boot, tlc
 from lib.harness import Run
 
 P = boot.boot()
-from atsim.potentials import Multi_Range_Defn, create_Multi_Range_Potential_Form    # noqa: E402
+from atsim.potentials import Multi_Range_Defn, create_Multi_Range_Potential_Form, Potential    # noqa: E402
 from atsim.potentials.config import Configuration                                   # noqa: E402
 
 SHIFT = 1000
@@ -83,15 +83,17 @@ def build_api(case, flavour):
     return create_Multi_Range_Potential_Form(*defs)
 
 
-def render_ini(case):
+def render_ini(case, custom=False):
+    """custom: every range is a [Potential-Form] formula - none of the ranges offers an analytic derivative"""
     parts = []
     for j, (ty, s) in enumerate(case["listing"]):
         rid = j + 1
         marker = "%s%s " % (ty, repr(s / 2.0))
         if j == 0 and ty == ">" and s == 0:
             marker = ""      # a potential written without a leading range marker acts for r > 0 only
-        parts.append("%sas.polynomial %d %d %d" % (marker, 100 * rid, rid + 1, rid + 2))
-    return "[Tabulation]\ntarget : LAMMPS\nnr : 5\ncutoff : 4.0\n\n[Pair]\nA-B : %s\n" % " ".join(parts)
+        parts.append("%s%s %d %d %d" % (marker, "quad" if custom else "as.polynomial", 100 * rid, rid + 1, rid + 2))
+    return "[Tabulation]\ntarget : LAMMPS\nnr : 5\ncutoff : 4.0\n\n[Pair]\nA-B : %s\n" % " ".join(parts) + (
+        "\n[Potential-Form]\nquad(r, a, b, c) = a + b*r + c*r^2\n" if custom else "")
 
 
 def check_object(case, f, route, flavour, bad, rnd):
@@ -122,12 +124,12 @@ def check_object(case, f, route, flavour, bad, rnd):
             chosen[x] = rid
             # derivatives from the same range (away from being exactly on a boundary of a numeric-derivative range)
             for name, fn, tol in (("deriv", d1, 1e-4), ("deriv2", d2, 1e-2)):
-                if route != "api" and x == 0.0:
+                if route == "potable" and x == 0.0:
                     continue     # as.polynomial's derivative at exactly r = 0 is C07's subject (finding F18), not range selection
                 if hasattr(f, name):
                     dv = getattr(f, name)(x)
                     want = 0.0 if rid == 0 else fn(rid, x)
-                    analytic = rid == 0 or flavour == "analytic" or (flavour == "mixed" and rid % 2 == 1) or route != "api"
+                    analytic = rid == 0 or flavour == "analytic" or (flavour == "mixed" and rid % 2 == 1) or route == "potable"
                     if not analytic and name == "deriv2":
                         continue    # second finite differences of a numerically differentiated range: C07's tolerance question
                     # a range without an analytic derivative is differentiated numerically ON ITS OWN (it is defined on both
@@ -138,6 +140,29 @@ def check_object(case, f, route, flavour, bad, rnd):
     return chosen, nq
 
 
+def check_force(case, pot, sel, route, bad, tol, known):
+    """Potential.force = -derivative of the range selected at r, whether or not the composite offers .deriv: on a start, and
+    next to one, the slope is that of the range that gives the value (a range is defined on both sides of its start)"""
+    for x, e, kind in points_of(case):
+        rid = sel.get(x)
+        if rid is None or (x == 0.0 and route == "potable"):
+            continue
+        want = 0.0 if rid == 0 else -d1(rid, x)
+        got = pot.force(x)
+        if abs(got - want) > tol * max(1.0, abs(want)):
+            offers = hasattr(pot.potentialFunction, "deriv")
+            near = any(abs(x - s / 2.0) <= 0.5e-6 for ty, s in case["listing"])     # within half a finite-difference step of a start
+            item = ("derivative-from-other-range", "r=%s: energy from range #%d %s but force=%r (minus the slope of that range is %r)%s" % (
+                x, rid, case["listing"][rid - 1] if rid else "default", got, want,
+                "" if offers else "; the composite offers no .deriv, Potential.force differentiates it as a whole"), route,
+                dict(composite_offers_deriv=offers, within_half_step_of_a_start=near, consumer="Potential.force"))
+            if offers or not near:
+                bad.append(item)
+                return
+            if not known:          # the class of finding F30: reported once per case, the other separations are still examined
+                known.append(item)
+
+
 _CASES = []
 _SEED = 0
 
@@ -146,13 +171,16 @@ def _one(idx):
     case = _CASES[idx]
     rnd = random.Random(_SEED * 7919 + idx)
     bad = []
-    out = dict(idx=idx, bad=bad, queries=0, sel={})
+    known = []
+    out = dict(idx=idx, bad=bad, known=known, queries=0, sel={})
     try:
         flav = ["analytic", "mixed", "numeric"][idx % 3]
         f = build_api(case, flav)
         sel, nq = check_object(case, f, "api", flav, bad, rnd)
         out["queries"] += nq
         out["sel"] = {repr(x): sel[x] for x in sel}
+        if not bad:
+            check_force(case, Potential("A", "B", f), sel, "api", bad, 1e-9 if flav == "analytic" else 1e-4, known)
         if len(case["listing"]) <= 3 or idx % 5 == 0:
             text = render_ini(case)
             tab = Configuration().read(io.StringIO(text))
@@ -173,6 +201,13 @@ def _one(idx):
                 if abs(pot.force(x) - want) > 1e-9 * max(1.0, abs(want)):
                     bad.append(("derivative-from-other-range", "r=%s: energy from range #%d but force=%r (that range gives %r)" % (x, rid, pot.force(x), want), "potable"))
                     break
+            if not bad:       # the same listing with custom formulas: no range offers a derivative
+                text = render_ini(case, custom=True)
+                pot = Configuration().read(io.StringIO(text)).potentials[0]
+                sel3, nq = check_object(case, pot.potentialFunction, "potable-formula", "numeric", bad, rnd)
+                out["queries"] += nq
+                if not bad:
+                    check_force(case, pot, sel3, "potable-formula", bad, 1e-4, known)
             if bad:
                 out["ini"] = text
     except Exception:
@@ -236,6 +271,13 @@ def main(prop, tier, seed):
                     cases = tlc.read_ndjson(os.path.join(res.outdir, "cases.ndjson"))
             finally:
                 tlc.cleanup(res)
+        # the statement's clause on derivatives: violated by the model of the tree as it is (finding F30), held by the design
+        r2 = tlc.run("MultiRange", "MultiRange_numacross.cfg", timeout=600)
+        if r2.violated != "DerivFromSelected":
+            run.machinery("MultiRange_numacross.cfg (the tree as it is, F30) should violate DerivFromSelected, TLC says %r" % (r2.violated,))
+        r3 = tlc.run("MultiRange", "MultiRange_design.cfg", timeout=600)
+        if r3.violated:
+            run.machinery("MultiRange_design.cfg: %s violated" % r3.violated)
         if not run.machinery_errors:
             _CASES, _SEED = cases, seed
             with mp.Pool(min(16, os.cpu_count() or 1)) as pool:
@@ -252,9 +294,11 @@ def main(prop, tier, seed):
                     run.distinct(json.dumps(case["listing"]))
                 if len(run.samples) < 4 and len(case["listing"]) >= 3 and r["idx"] % 97 == 5:
                     run.sample(dict(listing=case["listing"], queries=xs_of(case), selected=r["sel"]))
-                for clause, msg, route in r["bad"][:1]:
-                    run.violation(dict(engine="multirange", clause=clause, route=route), "[%s] %s" % (clause, msg),
-                                  dict(case=case, ini=r.get("ini")))
+                for b in r["bad"][:1] + r["known"][:1]:
+                    clause, msg, route = b[:3]
+                    sig = dict(engine="multirange", clause=clause, route=route)
+                    sig.update(b[3] if len(b) > 3 else {})
+                    run.violation(sig, "[%s] %s" % (clause, msg), dict(case=case, ini=r.get("ini")))
                 # listing-order independence: all listings of one multiset of ranges select the same (marker, start)
                 if case["exp"][0]["nodup"] and not r["bad"]:
                     key = json.dumps(sorted(case["listing"]))
